@@ -83,10 +83,20 @@ class Gen:
             return "(%s) %s (%s <=> %s)" % (self.bool_expr(env, d - 1), r.choice(["and", "or"]), a, b)
         if k < 0.75:
             return "not (%s)" % self.bool_expr(env, d - 1)
-        if k < 0.85:
+        if k < 0.80:
             return "(%s, %s) %s (%s, %s)" % (self.int_expr(env, d - 1), self.int_expr(env, d - 1),
-                                             r.choice(["==", "!=", "<"]), self.int_expr(env, d - 1),
+                                             r.choice(["==", "!=", "<", "<=", ">", ">="]), self.int_expr(env, d - 1),
                                              self.int_expr(env, d - 1))
+        if k < 0.85:
+            # nested tuples whose leading (nested) component is equal on both sides but a different object: ordering and
+            # equality must be structural at every depth
+            a, b = self.int_atom(env, d - 1), self.int_atom(env, d - 1)
+            x, y = self.int_atom(env, d - 1), self.int_atom(env, d - 1)
+            shape = r.choice(["((%s, %s), %s) %s ((%s, %s), %s)", "(%s, (%s, %s)) %s (%s, (%s, %s))", "(((%s,), %s), %s) %s (((%s,), %s), %s)"])
+            op = r.choice(["<", "<=", ">", ">=", "==", "!="])
+            if shape.startswith("(%s, ("):
+                return shape % (a, b, x, op, a, b, y)
+            return shape % (a, b, x, op, a, b, y)
         return "\"%s\" == \"%s\"" % (r.choice(["a", "b", "ab"]), r.choice(["a", "b", "ab"]))
 
     # ---- statements --------------------------------------------------------------------------
@@ -358,6 +368,8 @@ def program(r, size=3):
 # stage 7: local functions in the body of `start` that capture and change its mutable locals.
 # stage 8: local functions in nested blocks, if-branches and loop bodies too.
 # stage 9: strings (literals, concatenation with +, comparisons, ==, <=>, print).
+# stage 10: higher-order functions: functions (top-level, local closures, function parameters) passed to function
+#           parameters and called there.
 
 class FragGen:
     def __init__(self, r, stage=1):
@@ -369,8 +381,18 @@ class FragGen:
         self.n += 1
         return "%s%d" % (p, self.n)
 
+    def hof_call(self, env):
+        # stage 4e: a function (top-level, local closure or function parameter) passed to a function parameter
+        r = self.r
+        h, n = r.choice(env["hofs"])
+        gs = [f for f, k in env.get("funs", []) if k == 1]
+        g = r.choice(gs)
+        return "%s(%s)" % (h, ", ".join([g] + [str(r.randint(0, 3)) if r.random() < 0.5 else self.int_expr(env, 0) for _ in range(n)]))
+
     def int_expr(self, env, d):
         r = self.r
+        if self.stage >= 10 and env.get("hofs") and d > 0 and r.random() < 0.25 and any(k == 1 for _, k in env.get("funs", [])):
+            return self.hof_call(env)
         if self.stage >= 4 and env.get("funs") and d > 0 and r.random() < 0.2:
             f, n = r.choice(env["funs"])
             return "%s(%s)" % (f, ", ".join(str(r.randint(0, 3)) if r.random() < 0.5 else self.int_expr(env, 0) for _ in range(n)))
@@ -548,7 +570,8 @@ class FragGen:
         lf = self.fresh("lf")
         nparams = r.randint(0, 2)
         params = [self.fresh("p") for _ in range(nparams)]
-        fenv = {"ints": list(env["ints"]) + params, "bools": list(env["bools"]), "muts": list(env["muts"]), "funs": list(env["funs"])}
+        fenv = {"ints": list(env["ints"]) + params, "bools": list(env["bools"]), "muts": list(env["muts"]), "funs": list(env["funs"]),
+                "hofs": list(env.get("hofs", []))}
         out = ["%s%s :: fn %s-> int do" % (pad, lf, "".join("%s: int, " % p for p in params)[:-2] + " " if params else "")]
         if env["muts"]:
             out.append("%s  %s %s %s" % (pad, r.choice(env["muts"]), r.choice(["+=", "-=", "="]), self.int_expr(fenv, 0)))
@@ -573,7 +596,8 @@ class FragGen:
             lf = self.fresh("lf")
             nparams = r.randint(0, 2)
             params = [self.fresh("p") for _ in range(nparams)]
-            fenv = {"ints": list(env["ints"]) + params, "bools": list(env["bools"]), "muts": list(env["muts"]), "funs": list(env["funs"])}
+            fenv = {"ints": list(env["ints"]) + params, "bools": list(env["bools"]), "muts": list(env["muts"]), "funs": list(env["funs"]),
+                    "hofs": list(env.get("hofs", []))}
             out.append("%s%s :: fn %s-> int do" % (pad, lf, "".join("%s: int, " % p for p in params)[:-2] + " " if params else ""))
             out.append("%s  %s %s %s" % (pad, r.choice(env["muts"]), r.choice(["+=", "-=", "="]), self.int_expr(fenv, 0)))
             out += self.block(fenv, 1, ind + 1, r.randint(0, 2))
@@ -586,6 +610,9 @@ class FragGen:
             out += self.block(env, 1, ind, r.randint(0, 2))
             out.append("%s%s %s %s" % (pad, r.choice(env["muts"]), r.choice(["=", "+=", "-="]), self.int_expr(env, 0)))
             out.append("%sprint(%s(%s))" % (pad, lf, ", ".join(self.int_expr(env, 0) for _ in range(nparams))))
+            if self.stage >= 10 and env.get("hofs") and nparams == 1:
+                h, n = r.choice(env["hofs"])
+                out.append("%sprint(%s(%s))" % (pad, h, ", ".join([lf] + [self.int_expr(env, 0) for _ in range(n)])))
             out.append("%sprint(%s)" % (pad, r.choice(env["muts"])))
         out += self.block(env, 2, ind, r.randint(1, 4))
         return out
@@ -595,7 +622,18 @@ class FragGen:
         f = self.fresh("f")
         nparams = r.randint(0, 3)
         params = [self.fresh("p") for _ in range(nparams)]
-        fenv = {"ints": list(env["ints"]) + params, "bools": list(env["bools"]), "muts": [], "funs": list(env.get("funs", []))}
+        fenv = {"ints": list(env["ints"]) + params, "bools": list(env["bools"]), "muts": [], "funs": list(env.get("funs", [])),
+                "hofs": list(env.get("hofs", []))}
+        if self.stage >= 10 and r.random() < 0.5:
+            # stage 4e: a higher-order function: its first parameter is a function that it calls
+            q = self.fresh("q")
+            fenv["funs"].append((q, 1))
+            out = ["%s :: fn %s: fn int -> int%s -> int do" % (f, q, "".join(", %s: int" % p for p in params))]
+            out += self.block(fenv, 1, 1, r.randint(0, 2))
+            out.append("  (%s(%s) + %s)" % (q, self.int_expr(fenv, 1), self.int_expr(fenv, 2)))
+            out.append("end")
+            env.setdefault("hofs", []).append((f, nparams))
+            return out
         out = ["%s :: fn %s-> int do" % (f, "".join("%s: int, " % p for p in params)[:-2] + " " if params else "")]
         if self.stage >= 5 and r.random() < 0.6:
             # stage 4a: early returns, also from inside a loop and an if
